@@ -112,6 +112,29 @@ def k_holder_reuse(ctx, seed):
         prev = kind
         _holder_views(ctx, holder, kind, 1 if kind == "file_data" else 0, raw, dict(case, step=step, kind=kind), "reused")
 
+def k_holder_before_factory(ctx, seed):
+    """A holder around a locally built PDU answers its typed accessor first; afterwards the factory still decodes every kind.
+    (In the main run the factory has long been used; the cold-start stage runs this case first in a fresh interpreter.)"""
+    import random
+    X = C.lib()
+    r = random.Random(f"hbf/{seed}")
+    case = {"k": "holder_before_factory", "seed": seed}
+    ctx.case("holder_before_factory", seed, sample=case)
+    kind0 = r.choice(C.DIRECTIVE_KINDS)
+    cfg0 = C.rand_cfg(r)
+    obj = C.build(kind0, cfg0, C.rand_params(r, kind0, cfg0, rich=False))
+    holder = X.PduHolder(obj)
+    ok, res = attempt(getattr(holder, ACCESSOR[kind0]))
+    ctx.check("holder.accessor_matrix", ok and res is obj, "matching_kind_refused", f"{kind0}->{kind0}/local_first", case, error=repr(res))
+    for kind in C.KINDS8:
+        cfg = C.rand_cfg(r, segctrl=(kind == "file_data"))
+        p = C.rand_params(r, kind, cfg, rich=False)
+        raw = C.ref_octets(kind, cfg, p)
+        ok, pdu = attempt(X.PduFactory.from_raw, raw)
+        ctx.check("factory.from_raw", ok and pdu is not None and type(pdu) is X.CLS[kind], "raised_or_none", f"{kind}/after_a_holder_accessor_was_used_first", dict(case, kind=kind),
+                  observed=repr(pdu)[:120])
+
+
 def k_empty_holder(ctx):
     X = C.lib()
     h = X.PduHolder(None)
@@ -122,7 +145,7 @@ def k_empty_holder(ctx):
         ctx.check("holder.accessor_matrix", (not ok) and isinstance(res, TypeError), "empty_holder_cast", acc, {"k": "empty_holder"}, observed=repr(res))
 
 
-KINDS = {"factory": k_factory, "empty_holder": lambda ctx: k_empty_holder(ctx), "holder_reuse": k_holder_reuse}
+KINDS = {"holder_before_factory": k_holder_before_factory, "factory": k_factory, "empty_holder": lambda ctx: k_empty_holder(ctx), "holder_reuse": k_holder_reuse}
 
 
 def run(ctx):
@@ -157,6 +180,8 @@ def run(ctx):
                     k_factory(ctx, kind, got[0], got[1])
     for j in range(ctx.n(600, 60_000)):
         k_holder_reuse(ctx, ctx.seed * 1_000_003 + ctx.shard[0] * 100_003 + j)
+    for j in range(ctx.n(20, 2000)):
+        k_holder_before_factory(ctx, ctx.seed * 1_000_003 + ctx.shard[0] * 100_003 + j)
     if ctx.shard[0] == 0:
         k_empty_holder(ctx)
 
